@@ -100,6 +100,8 @@ VARIATIONS = [
     ("halo-none-vs-default", {}, {"halo": 12.0}),
     ("halo-none-vs-other", {}, {"halo": 8.0}),
     ("halo-explicit-vs-other", {"halo": 12.0}, {"halo": 8.0}),
+    # two halos that agree to ten digits but pad a different number of cells (int(halo/dx): dx = 2)
+    ("halo-nearly-equal", {"halo": 2.0}, {"halo": 1.9999999999}),
     ("precision", {}, {"precision": "single"}),
     ("footprint", {}, {"footprint": False}),
 ]
@@ -134,7 +136,10 @@ def coq_request(s):
     """The Model/Cache.v request of a spec: one integer token per argument content."""
     lab = lambda name: int(name[-1]) + 1
     lev = int(hashlib.sha1(repr(canon_levels(s["levels"])).encode()).hexdigest()[:7], 16)
-    halo = "None" if s["halo"] is None else "(Some %d)" % _i8(s["halo"])
+    def halo_token(h):  # value*8 for multiples of 1/8 (so that an explicit default equals max(domain)); else a hash of the bits
+        v = float(h) * 8
+        return int(v) if v == int(v) else 10**9 + int(hashlib.sha1(float(h).hex().encode()).hexdigest()[:7], 16)
+    halo = "None" if s["halo"] is None else "(Some %d)" % halo_token(s["halo"])
     t = [s["shape"][0], s["shape"][1], {"ones": 1, "ramp": 2}[s["values"]], lab(s["z"]), lab(s["u"]), lab(s["v"]),
          lab(s["kx"]), lab(s["ky"]), lab(s["kz"]), _i8(s["domain"][0]), _i8(s["domain"][1]), lev,
          s["modes"][0] * 1000 + s["modes"][1], _i8(s["meas"][0]) * 100000 + _i8(s["meas"][1])]
@@ -284,6 +289,10 @@ def damaged_bytes(data, how):
     if "flip" in how:
         p = how["flip"] % len(data)
         return data[:p] + bytes([data[p] ^ 0x5A]) + data[p + 1:]
+    if "zero" in how:  # a zero-filled block inside a full-length file (delayed allocation after a crash)
+        p = how["zero"][0] % len(data)
+        n = how["zero"][1]
+        return data[:p] + b"\0" * len(data[p:p + n]) + data[p + n:]
     g = how["garbage"]
     if g == "empty":
         return b""
@@ -365,7 +374,9 @@ def run_trunc_real(env, job):
     data = open(p, "rb").read()
     out["size"] = len(data)
     size = len(data)
-    if job["points"] == "all":
+    if job["points"] == "none":  # zero-block sweep only (large entry)
+        pts = []
+    elif job["points"] == "all":
         pts = list(range(size))
     else:  # stride: the first 24 and last 80 prefixes (zip local header / central directory), every 13th between
         pts = sorted(set(range(0, 24)) | set(range(size - 80, size)) | set(range(0, size, 13)))
@@ -393,6 +404,22 @@ def run_trunc_real(env, job):
                               "files_ok": f1 == [key + ".npz"] and listing(d) == [key + ".npz"]})
         if r1["raised"] or r2["raised"] or not os.path.exists(p):
             with open(p, "wb") as f:  # restore so that the remaining points are still meaningful
+                f.write(data)
+    # full-length entries with a zero-filled 512-byte block (what delayed allocation leaves after a
+    # crash): judged by the property only — never fatal, never a wrong answer
+    out["zpoints"] = []
+    zstep = job.get("zero_stride", 32)
+    with open(p, "wb") as f:
+        f.write(data)
+    for k in list(range(0, size, zstep))[job["shard"]::job["nshard"]]:
+        with open(p, "wb") as f:
+            f.write(data[:k] + b"\0" * len(data[k:k + 512]) + data[k + 512:])
+        r1 = env.call(spec, cache)
+        r2 = env.call(spec, cache)
+        out["zpoints"].append({"k": k, "raised1": r1["raised"], "raised2": r2["raised"],
+                               "ok1": r1["answer"] == r1["ref"], "ok2": r2["answer"] == r2["ref"]})
+        if r1["raised"] or r2["raised"] or not os.path.exists(p):
+            with open(p, "wb") as f:
                 f.write(data)
     return out
 
@@ -532,6 +559,14 @@ def flip_scenarios(rng, size_hint, n, prefix):
         evs = [{"t": "run", "i": 0}, {"t": "damage", "i": 0, "how": {"flip": rng.randrange(size_hint)}},
                {"t": "run", "i": 0}, {"t": "run", "i": 0}]
         out.append({"id": "%s-%03d" % (prefix, k), "cat": "flip", "var": "flip", "reqs": [mkspec()], "events": evs,
+                    "no_model": True})
+    # zero-filled blocks of 512 bytes at a stride through the entry (covers member headers and payloads)
+    nblk = max(1, size_hint // 512)
+    step = max(1, nblk // max(1, n))
+    for k in range(0, nblk, step):
+        evs = [{"t": "run", "i": 0}, {"t": "damage", "i": 0, "how": {"zero": [k * 512, 512]}},
+               {"t": "run", "i": 0}, {"t": "run", "i": 0}]
+        out.append({"id": "%s-zero-%03d" % (prefix, k), "cat": "flip", "var": "zero-block", "reqs": [mkspec()], "events": evs,
                     "no_model": True})
     return out
 
@@ -738,10 +773,14 @@ def check(ctx):
     tm = tm.get("trunc")
     tjobs = []
     nshard = 6 if ctx.thorough else 2
-    for name, spec in tspecs:
+    # a larger entry (members > 4 KiB, so that numpy parses a member header before zipfile checks the CRC):
+    # only the zero-block sweep is run on it
+    tspecs_all = tspecs + [("big3d", mkspec({"shape": [24, 32], "levels": [1, 2, 3], "halo": 0.0}))]
+    for name, spec in tspecs_all:
         for sh in range(nshard):
             tjobs.append({"truncs": [{"id": "%s-%d" % (name, sh), "req": spec,
-                                      "points": "all" if ctx.thorough else "stride", "shard": sh, "nshard": nshard,
+                                      "points": "none" if name == "big3d" else ("all" if ctx.thorough else "stride"), "shard": sh, "nshard": nshard,
+                                      "zero_stride": 8 if ctx.thorough else 32,
                                       "dir": os.path.join(ctx.build, "cache", "trunc-%s-%d" % (name, sh))}]})
     for j in tjobs:
         shutil.rmtree(j["truncs"][0]["dir"], ignore_errors=True)
@@ -778,6 +817,17 @@ def check(ctx):
                              "implementation %r; answers equal uncached: %s/%s; raised: %s / %s; directory as expected: %s" % (
                                  pt["k"], want, got, pt["ok1"], pt["ok2"], pt["raised1"], pt["raised2"], pt["files_ok"]),
                              hint={"scenario": trunc_scn(tj["req"], pt["k"])})
+        zbad = 0
+        for pt in r.get("zpoints", []):
+            tstat["zero_block_points"] = tstat.get("zero_block_points", 0) + 1
+            events += 2
+            if pt["raised1"] or pt["raised2"] or not (pt["ok1"] and pt["ok2"]):
+                zbad += 1
+                if zbad <= 3:
+                    ctx.fail("correspondence", "C15:zeroblock-%s-%d" % (tj["id"], pt["k"]),
+                             "entry with a zero-filled 512-byte block at offset %d: raised %s / %s, answers equal uncached %s / %s" % (
+                                 pt["k"], pt["raised1"], pt["raised2"], pt["ok1"], pt["ok2"]),
+                             hint={"scenario": zero_scn(tj["req"], pt["k"])})
     hist["truncation"] = tstat
     nontrivial += tstat["points"]
     ctx.cov.update({
@@ -808,6 +858,12 @@ def check(ctx):
 
 def strip(s):
     return {k: v for k, v in s.items() if k not in ("dir",)}
+
+
+def zero_scn(spec, k):
+    return {"id": "zero-%d" % k, "cat": "flip", "var": "zero-block", "reqs": [spec], "no_model": True,
+            "events": [{"t": "run", "i": 0}, {"t": "damage", "i": 0, "how": {"zero": [k, 512]}},
+                       {"t": "run", "i": 0}, {"t": "run", "i": 0}]}
 
 
 def trunc_scn(spec, k):
